@@ -60,8 +60,12 @@ def mkOp (ty arg x : String) : DOp :=
   { ty := ty, args := arg
     -- x = 666: the callback panics; the caller catches the panic and prints `CBPANIC` (the formatter constructed
     -- for this lookup was inserted BEFORE the callback ran, so it stays cached)
+    -- x = 777: the callback calls `get_for_lang` for its own language while the lookup is active; the handle the lookup
+    -- runs on is alive, so the per-language table hands out the SAME memoizer (`MemoIntl`: shared while a handle is
+    -- alive) and nothing changes: the callback reports `+same`
     cb := fun i w => (if x == "666" then "CBPANIC"
-                      else toString i.serial ++ "/" ++ i.ty ++ "/" ++ i.lang ++ "/" ++ i.arg ++ "/" ++ x, w) }
+                      else toString i.serial ++ "/" ++ i.ty ++ "/" ++ i.lang ++ "/" ++ i.arg ++ "/" ++ x
+                           ++ (if x == "777" then "+same" else ""), w) }
 
 def isHexTok (s : String) : Bool := (hexDecode s).isSome
 
@@ -115,10 +119,26 @@ def parseMOp (conc : Bool) (op : String) : Option DMOp :=
     | _, _ => none
   | _ => none
 
+/-- handles handed out by `lang:` (get_for_lang), by index: only those may run the re-entrant callback `x = 777` -/
+def originOf (ops : List String) : List Bool :=
+  ops.filterMap fun op =>
+    match op.splitOn ":" with
+    | ["lang", _] => some true
+    | ["new", _] => some false
+    | _ => none
+
+def reenterOk (conc : Bool) (origin : List Bool) (op : String) : Bool :=
+  match op.splitOn ":" with
+  | ["get", h, _, _, x, _] =>
+    if x == "777" then !conc && (match h.toNat? with | some n => origin.getD n false | none => false) else true
+  | _ => true
+
 def runSeq (conc : Bool) (body : String) : String :=
   let ops := body.splitOn ";"
+  -- `lang:`/`new:` ops that are rejected (bad language, `lang:` on the concurrent flavour) hand out no handle
+  let origin := originOf (ops.filter fun op => (parseMOp conc op).isSome)
   let (_, outs) := ops.foldl (fun (acc : MState World String String String Inst String × List String) op =>
-    match parseMOp conc op with
+    match (if reenterOk conc origin op then parseMOp conc op else none) with
     | some o =>
       let r := mstep ext acc.1 o
       -- a new handle also reports `Rc::strong_count` of its allocation
